@@ -499,6 +499,48 @@ func generate() {
 		}
 	}
 
+	// ---- F. size classes: one long index, page sizes around powers of two and round numbers -------
+	// (a size-dependent shortcut inside GetRecords / LoadGeneralArticles - a cap, a buffer, a chunk - shows only
+	// when the page size crosses it on an index longer than the page): windows of n and n+1 records from both
+	// ends, and full ptt and bbs walks, both directions.
+	{
+		const bigLen = 2100
+		names := make([][]byte, bigLen)
+		t := int64(bigBase + 100)
+		for i := range names {
+			if i%3 != 0 {
+				t += int64(i % 2)
+			}
+			if i%97 == 5 {
+				names[i] = delName(t, i+1)
+			} else {
+				names[i] = liveName(t, i+1)
+			}
+		}
+		do(idxLine(names), "", true)
+		sizes := []int{255, 256, 257, 511, 512, 513, 999, 1000, 1001, 1023, 1024, 1025, 2047, 2048, 2099, 2100, 2101}
+		for _, n := range sizes {
+			for _, d := range []string{"asc", "desc"} {
+				start := 1
+				if d == "desc" {
+					start = bigLen
+				}
+				cl := fmt.Sprintf("size%d", n)
+				do(fmt.Sprintf("recs %d %d %s", start, n, d), cl, true)
+				do(fmt.Sprintf("recs %d %d %s", start, n+1, d), cl, true)
+				if n <= 2048 && !stop() {
+					do(fmt.Sprintf("pwalk %d %s %d", n, d, bigLen), cl, true)
+					do(fmt.Sprintf("walk %d %s %d", n, d, bigLen), cl, true)
+				}
+			}
+		}
+		// a cursor deep inside, then a large page from there
+		for _, n := range []int{512, 1024} {
+			do(fmt.Sprintf("recs %d %d asc", 700, n+1), "size-mid", true)
+			do(fmt.Sprintf("recs %d %d desc", 1900, n+1), "size-mid", true)
+		}
+	}
+
 	// ---- D. malformed stream -----------------------------------------------------------------------
 	do(idxLine(buildIndex(bigBase+10, []sym{{0, 0}, {1, 0}, {0, 1}, {2, 0}})), "", true)
 	for _, ct := range []int64{-1 << 31, -1<<31 + 1, 1<<31 - 1, 0, -1} {
